@@ -51,3 +51,41 @@ def _mk(base, name, **attrs):
 KERNELS = [GraphEq(),
            _mk(DependOnEnter, "DependOnEnterExisting", has_stack=True, id="C06.P.dependon_enter[stack exists]", describe="DependOn.__enter__ pushes exactly its dependency list onto this thread's stack; everything below is unchanged"),
            _mk(DependOnEnter, "DependOnEnterFirst", has_stack=False, id="C06.P.dependon_enter[first use in this thread]", describe="DependOn.__enter__ in a thread that has no stack yet: creates it, holding exactly the dependency list")]
+
+
+class HashK(Kernel):
+    """__hash__ is a function of exactly the fields that __eq__ compares (so equal keys have equal hashes: a cache hit is found)"""
+    prop = "C06"
+    file = "einx/_src/tracer/signature/classical/tensor.py"
+    module = "einx._src.tracer.signature.classical.tensor"
+    cls = "Tensor"
+    allowed_raises = ("ValueError",)
+
+    @property
+    def qual(self):
+        return f"{self.cls}/__hash__"
+
+    def setup(self, eng, bound=None):
+        self.H = uf("py_hash", Obj, I)
+        self.frozen = uf("frozen_value", Obj, Obj)
+        self.shape, self.conc, self.origin = z3.Const("shape", Obj), z3.Const("concrete", Obj), z3.Const("origin", Obj)
+        eng.contracts.update({"hash": SContract(lambda e, p, av, kw: SInt(self.H(av[0].t)), "hash()"), "_freeze_value": SContract(lambda e, p, av, kw: SObj(self.frozen(av[0].t)), "_freeze_value (C06.P.freeze)")})
+        eng.seq_attrs = {}
+        me = SRec(self.cls, shape=SObj(self.shape), concrete=SObj(self.conc), origin=SObj(self.origin))
+        return {"self": me}, [], {}
+
+    def post(self, eng, out, p):
+        isnone = uf("is_None", Obj, B)(self.origin)
+        if isinstance(out, Raise):
+            eng.oblige("post:ValueError only for a tracer that is not a graph input (origin not None): such tracers are never cache keys", p, z3.Not(isnone), "post")
+            return
+        r = out.v
+        if self.cls == "Tensor":
+            eng.oblige("post:hash = 1 + hash(shape): a function of the shape only (origin is None for every key)", p, r.t == 1 + self.H(self.shape) if isinstance(r, SInt) else z3.BoolVal(False), "post")
+        else:
+            eng.oblige("post:hash = hash(shape) + hash(frozen concrete descriptor): a function of exactly the fields __eq__ compares", p, r.t == self.H(self.shape) + self.H(self.frozen(self.conc)) if isinstance(r, SInt) else z3.BoolVal(False), "post")
+            eng.oblige("post:only graph inputs are hashed", p, isnone, "post")
+
+
+KERNELS += [_mk(HashK, "Hash_Tensor", cls="Tensor", id="C06.P.hash_tensor", describe="Tensor.__hash__ = 1 + hash(shape): equal keys (C06.P.key_tensor) have equal hashes"),
+            _mk(HashK, "Hash_Convertible", cls="ConvertibleTensor", id="C06.P.hash_convertible", describe="ConvertibleTensor.__hash__ = hash(shape) + hash(frozen concrete): a function of exactly what __eq__ compares (C06.P.key_convertible), for graph inputs only")]
